@@ -116,7 +116,7 @@ Proof.
 Qed.
 
 (* ---- closedness: every reference of the expansion resolves ------------------- *)
-Definition resolves (D : list (bool * bytes)) (f : ofield) : bool := ref_resolves D (f_type f).
+Definition resolves (D : list (bool * bytes)) (f : ofield) : bool := field_resolves D f.
 
 Lemma closed_unfold : forall cs, closed cs = forallb (resolves (defined cs)) (fields_of cs).
 Proof. reflexivity. Qed.
@@ -136,13 +136,13 @@ Qed.
 
 Lemma resolves_object : forall D n j r q fl p t fi,
   In (false, n) D -> resolves D (mkF j (TObject [] n) r q fl p t fi) = true.
-Proof. intros. unfold resolves, ref_resolves. cbn [f_type]. now apply resolves_local. Qed.
+Proof. intros. unfold resolves, field_resolves, ref_resolves. cbn [f_type f_inline mkF]. rewrite andb_true_r. now apply resolves_local. Qed.
 Lemma resolves_oneof : forall D n j r q fl p t fi,
   In (false, n) D -> resolves D (mkF j (TOneof [] n) r q fl p t fi) = true.
-Proof. intros. unfold resolves, ref_resolves. cbn [f_type]. now apply resolves_local. Qed.
+Proof. intros. unfold resolves, field_resolves, ref_resolves. cbn [f_type f_inline mkF]. rewrite andb_true_r. now apply resolves_local. Qed.
 Lemma resolves_enum : forall D n j r q fl p t fi,
   In (true, n) D -> resolves D (mkF j (TEnum [] n) r q fl p t fi) = true.
-Proof. intros. unfold resolves, ref_resolves. cbn [f_type]. now apply resolves_local. Qed.
+Proof. intros. unfold resolves, field_resolves, ref_resolves. cbn [f_type f_inline mkF]. rewrite andb_true_r. now apply resolves_local. Qed.
 
 (* scalar and key fields carry no reference *)
 Definition is_ref_item (i : ikind) : bool :=
@@ -152,12 +152,25 @@ Definition is_ref_field (u : ufield) : bool :=
   | KObject _ | KOneof _ | KEnum _ => true
   | KArray i => is_ref_item i
   | KMap i => is_ref_item i
+  | KInlineObject fs => existsb (fun s => is_ref_item (sf_kind s)) fs
+  | KInlineOneof fs => existsb (fun s => is_ref_item (sf_kind s)) fs
   | _ => false
   end.
+Lemma item_scalar_resolves : forall D i, is_ref_item i = false -> ref_resolves D (otype_of_item i) = true.
+Proof. intros D [pt k|tn k|n|n|n] H; try reflexivity; discriminate. Qed.
+Lemma sfields_scalar_resolve : forall D fs, existsb (fun s => is_ref_item (sf_kind s)) fs = false ->
+  forallb (fun s => ref_resolves D (otype_of_item (sf_kind s))) fs = true.
+Proof.
+  induction fs as [|s fs IH]; intros H; [reflexivity|]. cbn in H. apply orb_false_iff in H. destruct H as [H1 H2].
+  cbn [forallb]. now rewrite (item_scalar_resolves D _ H1), IH.
+Qed.
 Lemma resolves_ufield_scalar : forall D u, is_ref_field u = false -> resolves D (of_ufield u) = true.
 Proof.
-  intros D [n [pt k|nm|nm|nm|p f t|tn k|i|i] r o] H; try reflexivity; try discriminate;
-    destruct i; try reflexivity; discriminate.
+  intros D [n [pt k|nm|nm|nm|p f t|tn k|i|i|fs|fs|os] r o] H; try reflexivity; try discriminate.
+  - unfold resolves, field_resolves. cbn. rewrite andb_true_r. now apply item_scalar_resolves.
+  - unfold resolves, field_resolves. cbn. rewrite andb_true_r. now apply item_scalar_resolves.
+  - unfold resolves, field_resolves. cbn. now apply sfields_scalar_resolve.
+  - unfold resolves, field_resolves. cbn. now apply sfields_scalar_resolve.
 Qed.
 
 (* what the user's own object references must name for the file to convert *)
@@ -449,20 +462,29 @@ Proof.
         cbn [schema_component m_fields m_nested flat_map]; rewrite app_nil_r; now apply in_map.
 Qed.
 
-(* the compiler accepts what entityNode.run accepts as soon as the user's fields are fine *)
+Lemma expand_total_aux : forall e, is_panic (expand e) = false /\ expand e <> OutOfFuel.
+Proof.
+  intros e. unfold expand. destruct (default_filters e _); [|split; [reflexivity|discriminate]].
+  destruct (nodup_bytes _); split; try reflexivity; discriminate.
+Qed.
+
+(* the compiler accepts what entityNode.run accepts as soon as the user's fields are fine
+   (and the query block has no list-request settings: those are a conversion error, see
+   [convert_list_settings]) *)
 Theorem compile_expand : forall e,
+  list_settings e = false ->
   (forall fl, user_refs_ok e (defined (expand_with e fl)) = true) ->
   fields_ok e = true -> query_params_ok e = true -> command_params_ok e = true -> convert e = expand e.
 Proof.
-  intros e HU Hok Hq Hc. unfold convert, expand.
+  intros e Hls HU Hok Hq Hc. unfold convert, expand. rewrite Hls.
   destruct (default_filters e _) as [fl|]; [|reflexivity].
   destruct (nodup_bytes _); [|reflexivity]. now rewrite (expand_closed e fl (HU fl)), Hok, Hq, Hc.
 Qed.
 
-(* the only convert errors the expansion itself can cause are in the user's own fields: an
+(* the only conversion errors the expansion itself can cause are in the user's own fields: an
    object reference that names nothing, an optional/required clash, a path parameter that is
    not a request field; a reference made by entity.go is never the cause *)
-Theorem compile_errors : forall e cs, expand e = Ok cs ->
+Theorem compile_errors : forall e cs, expand e = Ok cs -> list_settings e = false ->
   convert e = if user_refs_ok e (defined cs) then
                 if fields_ok e then
                   if query_params_ok e && command_params_ok e then Ok cs
@@ -470,13 +492,32 @@ Theorem compile_errors : forall e cs, expand e = Ok cs ->
                 else Err "cannot be both required and optional"
               else Err "type not found".
 Proof.
-  intros e cs H. unfold convert. rewrite H.
+  intros e cs H Hls. unfold convert. rewrite H, Hls.
   unfold expand in H. destruct (default_filters e _) as [fl|]; [|discriminate].
   destruct (nodup_bytes _); [|discriminate]. inversion H; subst.
   destruct (user_refs_ok e (defined (expand_with e fl))) eqn:EU.
   - now rewrite (expand_closed e fl EU).
   - destruct (closed (expand_with e fl)) eqn:Ec; [|reflexivity].
     rewrite (closed_user_refs e fl Ec) in EU. discriminate.
+Qed.
+
+(* Go panics are not hidden, and there is none left to hide: since fix 985f10a list-request settings
+   in the query block are a positioned conversion error (before, proto.SetExtension panicked) *)
+Theorem convert_never_panics : forall e, is_panic (convert e) = false /\ convert e <> OutOfFuel.
+Proof.
+  intros e. unfold convert. destruct (expand e) as [cs| | |] eqn:E.
+  - destruct (closed cs); [destruct (fields_ok e); [destruct (query_params_ok e && command_params_ok e);
+      [destruct (list_settings e)|]|]|]; split; try reflexivity; discriminate.
+  - split; [reflexivity|discriminate].
+  - pose proof (expand_total_aux e) as [Hp _]. rewrite E in Hp. discriminate.
+  - pose proof (expand_total_aux e) as [_ Hp]. now rewrite E in Hp.
+Qed.
+
+(* a declaration with list-request settings never converts *)
+Theorem convert_list_settings : forall e, list_settings e = true -> forall cs, convert e <> Ok cs.
+Proof.
+  intros e Hls cs. unfold convert. rewrite Hls. destruct (expand e) as [c| | |]; try discriminate.
+  destruct (closed c); [destruct (fields_ok e); [destruct (query_params_ok e && command_params_ok e)|]|]; discriminate.
 Qed.
 
 (* ---- the main file holds exactly Keys, Data, State, EventType, Event -------------- *)
@@ -650,21 +691,21 @@ Theorem keys_in_declaration_order : forall e,
   map f_json (m_fields (keys_msg e)) = map (fun k => uf_name (k_def k)) (e_keys e).
 Proof.
   intros e. unfold keys_msg. cbn [m_fields]. rewrite map_map. apply map_ext.
-  intros [[n [pt k|nm|nm|nm|p f t|tn k|i|i] r o] s]; reflexivity.
+  intros [[n [pt k|nm|nm|nm|p f t|tn k|i|i|fs|fs|os] r o] s]; reflexivity.
 Qed.
 
 Theorem primary_keys_required : forall e f,
   In f (m_fields (keys_msg e)) -> f_primary f = true -> f_required f = true.
 Proof.
   intros e f Hf Hp. unfold keys_msg in Hf. cbn [m_fields] in Hf.
-  apply in_map_iff in Hf. destruct Hf as [[[n [pt k|nm|nm|nm|p fk t|tn k|i|i] r o] s] [<- _]]; cbn in *; try discriminate.
+  apply in_map_iff in Hf. destruct Hf as [[[n [pt k|nm|nm|nm|p fk t|tn k|i|i|fs|fs|os] r o] s] [<- _]]; cbn in *; try discriminate.
   subst p. apply orb_true_r.
 Qed.
 
 Definition primary_keys (e : entity) : list ufield := filter is_primary (map k_def (e_keys e)).
 
 Lemma primary_is_key : forall u, is_primary u = true -> is_key_field u = true.
-Proof. intros [n [pt k|nm|nm|nm|p f t|tn k|i|i] r o] H; try discriminate; reflexivity. Qed.
+Proof. intros [n [pt k|nm|nm|nm|p f t|tn k|i|i|fs|fs|os] r o] H; try discriminate; reflexivity. Qed.
 
 (* the primary keys are, in declaration order, among the Get/Events path keys ... *)
 Theorem get_keys_primary : forall e, filter is_primary (get_keys e) = primary_keys e.
@@ -892,7 +933,7 @@ Theorem status_numbering : forall p l,
 Proof.
   intros p l H.
   assert (E : status_values p l = (p ++ bs "UNSPECIFIED", 0) :: number_from 1 p l).
-  { destruct l as [|s r]; [reflexivity|]. cbn [status_values]. now rewrite H. }
+  { destruct l as [|s r]; [reflexivity|]. unfold status_values. cbn [status_values_n]. now rewrite H. }
   split; [exact E|]. intros k Hk. rewrite E. cbn [nth_error].
   rewrite number_from_nth by assumption. f_equal. f_equal. lia.
 Qed.
@@ -938,7 +979,7 @@ Proof. induction l as [|s l IH]; intros i p; [reflexivity|]. cbn. now rewrite IH
 (* ... hence every default filter IS the name of a value of the status enum *)
 Theorem default_filters_are_enum_values : forall e fl f,
   default_filters e (requested_filters e) = Some fl -> In f fl ->
-  In f (map fst (status_values (status_prefix e) (e_status e))).
+  In f (map fst (entity_status_values e)).
 Proof.
   intros e fl f H Hf. destruct (default_filters_spec e _ fl H) as [HF ->].
   apply in_map_iff in Hf. destruct Hf as [s [<- Hs]].
@@ -946,8 +987,8 @@ Proof.
   apply existsb_exists in HF. destruct HF as [s' [Hin Heq]]. apply bytes_eqb_eq in Heq. subst s'.
   assert (G : In (status_value_name (status_prefix e) s)
                  (map (status_value_name (status_prefix e)) (e_status e))) by (now apply in_map).
-  destruct (e_status e) as [|s0 r] eqn:Es; [destruct Hin|].
-  cbn [status_values]. destruct (has_suffix (bs "UNSPECIFIED") s0).
+  unfold entity_status_values. destruct (e_status e) as [|s0 r] eqn:Es; [destruct Hin|].
+  cbn [status_values_n]. destruct (has_suffix (bs "UNSPECIFIED") s0 && (first_status_number e =? 0)).
   - cbn [map fst]. rewrite number_from_names. exact G.
   - cbn [map fst]. right. rewrite number_from_names. exact G.
 Qed.
@@ -1101,8 +1142,16 @@ Proof.
             existsb (fun d => Bool.eqb (fst d) b && bytes_eqb (snd d) n) D' = true).
   { intros b n Hx. apply existsb_exists in Hx. destruct Hx as [d [Hd Hp]].
     apply existsb_exists. exists d. split; [now apply Hi|assumption]. }
-  induction t as [pt k|p n|p n|p n|tn k|v IH]; intros H; cbn [ref_resolves] in *;
-    [reflexivity| | | |reflexivity|now apply IH]; destruct p; try assumption; now apply L.
+  induction t as [pt k|p n|p n|p n|tn k|v IH|n k]; intros H; cbn [ref_resolves] in *;
+    [reflexivity| | | |reflexivity|now apply IH|reflexivity]; destruct p; try assumption; now apply L.
+Qed.
+
+Lemma field_resolves_mono : forall D D' f,
+  incl D D' -> field_resolves D f = true -> field_resolves D' f = true.
+Proof.
+  intros D D' f Hi H. unfold field_resolves in *. apply andb_true_iff in H. destruct H as [H1 H2].
+  rewrite (ref_resolves_mono D D' _ Hi H1). cbn [andb]. destruct (f_inline f) as [il|]; [|reflexivity].
+  apply forallb_forall. intros s Hs. rewrite forallb_forall in H2. exact (ref_resolves_mono D D' _ Hi (H2 s Hs)).
 Qed.
 
 Lemma closed_app : forall a b, closed a = true -> closed b = true -> closed (a ++ b) = true.
@@ -1110,16 +1159,17 @@ Proof.
   intros a b Ha Hb. rewrite closed_unfold in *. rewrite fields_of_app, defined_app, forallb_app.
   apply andb_true_iff. split; apply forallb_forall; intros f Hf.
   - rewrite forallb_forall in Ha. specialize (Ha f Hf). unfold resolves in *.
-    eapply ref_resolves_mono; [|exact Ha]. apply incl_appl, incl_refl.
+    eapply field_resolves_mono; [|exact Ha]. apply incl_appl, incl_refl.
   - rewrite forallb_forall in Hb. specialize (Hb f Hf). unfold resolves in *.
-    eapply ref_resolves_mono; [|exact Hb]. apply incl_appr, incl_refl.
+    eapply field_resolves_mono; [|exact Hb]. apply incl_appr, incl_refl.
 Qed.
 
 Lemma compile_ok_inv : forall e cs, convert e = Ok cs -> expand e = Ok cs /\ closed cs = true.
 Proof.
   intros e cs H. unfold convert in H. destruct (expand e) as [c| | |] eqn:E; try discriminate.
   destruct (closed c) eqn:Ec; [|discriminate]. destruct (fields_ok e); [|discriminate].
-  destruct (query_params_ok e && command_params_ok e); [|discriminate]. inversion H; subst. auto.
+  destruct (query_params_ok e && command_params_ok e); [|discriminate].
+  destruct (list_settings e); [discriminate|]. inversion H; subst. auto.
 Qed.
 
 (* a file of entities compiles to the concatenation of the entities' own expansions ... *)
